@@ -64,9 +64,9 @@ structure Tree (Z : Type) where
   nodes : Nat          -- increments of `_num_tree_node`
   wts : List Rat       -- law of `cand` over the visited leaves under uniform draws (aligned with `leaves`)
 
-/-- `rand() <= n2 / max(1, n1 + n2)`, decided exactly. -/
+/-- `rand() < n2 / max(1, n1 + n2)`, decided exactly. -/
 def takeSecond (u : Rat) (n1 n2 : Nat) : Bool :=
-  decide (u * ((max 1 (n1 + n2) : Nat) : Rat) ≤ (n2 : Rat))
+  decide (u * ((max 1 (n1 + n2) : Nat) : Rat) < (n2 : Rat))
 
 /-- `alpha2 = n2 / max(1, n1 + n2)` -/
 def secondProb (n1 n2 : Nat) : Rat := (n2 : Rat) / ((max 1 (n1 + n2) : Nat) : Rat)
@@ -122,11 +122,11 @@ def loopBody {Z} (c : Ctx Z) (guard : Z → Bool) (st : Loop Z) : Loop Z :=
   let (t, us1) := buildTree c v st.j (if v = -1 then st.zminus else st.zplus) us0
   let zminus := if v = -1 then t.zminus else st.zminus
   let zplus := if v = -1 then st.zplus else t.zplus
-  -- `(s_prime == 1) and (rand() <= min(1, n'/n)) and guards` : rand() only drawn if s_prime == 1
+  -- `(s_prime == 1) and (rand() < min(1, n'/n)) and guards` : rand() only drawn if s_prime == 1
   let (accept, us2) :=
     if t.s then
       let (u, rest) := popU us1
-      (decide (u * (st.n : Rat) ≤ (t.n : Rat)) && decide (u ≤ 1) && guard t.cand, rest)
+      (decide (u * (st.n : Rat) < (t.n : Rat)) && decide (u < 1) && guard t.cand, rest)
     else (false, us1)
   { cur := if accept then t.cand else st.cur,
     zminus := zminus, zplus := zplus,
